@@ -142,6 +142,12 @@ def ambient_state():
                     continue
                 if isinstance(v, (int, float, complex, str, bool, type(None))) or (isinstance(v, (tuple, frozenset)) and len(v) < 20 and all(isinstance(t, (int, float, str, bool, type(None))) for t in v)):
                     st["%s.%s" % (name, k)] = repr(v)
+                elif callable(v) and getattr(v, "__module__", None) == name and (getattr(v, "__defaults__", None) or getattr(v, "__kwdefaults__", None)):
+                    # default argument values (a mutable default that a call modifies is state that survives the call)
+                    try:
+                        st["%s.%s.__defaults__" % (name, k)] = repr((v.__defaults__, v.__kwdefaults__))[:300]
+                    except Exception:
+                        pass
     return st
 
 
@@ -695,7 +701,7 @@ def registry_snapshot():
 
 
 # events that themselves register a user primitive: expected growth of (primitive_vjps, primitive_jvps)
-REGISTERS = {"fail_rule": (1, 0), "reentrant_rule": (1, 0), "reentrant_forward": (1, 0), "register": (1, 1), "deprecated": (1, 0)}
+REGISTERS = {"fail_check_grads_vjp_only": (1, 0), "fail_rule": (1, 0), "reentrant_rule": (1, 0), "reentrant_forward": (1, 0), "register": (1, 1), "deprecated": (1, 0)}
 
 
 def snap_diff(a, b):
@@ -864,13 +870,21 @@ def run_histories(res, chk, seed, idx, n, tier):
         if outs[0] != outs[1]:
             raise AssertionError("outcomes under warnings-as-errors differ between the first and the second evaluation: %s vs %s" % (outs[0], outs[1]))
 
+    def ev_fail_check_grads_vjp_only(rng):
+        # the bundled checker with its default modes on a primitive that has no forward rule: fails loudly
+        from autograd.test_util import check_grads
+
+        Pv = primitive(lambda x: x * 3.0)
+        defvjp(Pv, lambda ans, x: lambda g: g * 3.0)
+        check_grads(Pv)(onp.array([0.4, -0.9]))
+
     def ev_ok_work(rng):
         hessian(lambda x: anp.sum(anp.sin(x) * x))(x3)
         make_vjp(lambda x: anp.cumsum(x))(x3)[0](onp.ones(3))
 
     events = {"fail_user": ev_fail_user, "fail_nested": ev_fail_nested, "fail_rule": ev_fail_rule, "fail_norule": ev_fail_norule, "fail_type": ev_fail_type, "fail_nonscalar": ev_fail_nonscalar,
               "fail_warning": ev_fail_warning, "fail_warning_nested": ev_fail_warning_nested, "fail_setitem": ev_fail_setitem, "caught_inside": ev_fail_caught_inside, "reentrant_rule": ev_reentrant_rule,
-              "reentrant_forward": ev_reentrant_forward, "recursion": ev_recursion, "register": ev_register, "deprecated": ev_deprecated, "ok_work": ev_ok_work, "rfft_options": ev_rfft_options, "fail_bad_cotangent": ev_fail_bad_cotangent, "warnings_as_errors": ev_warnings_as_errors}
+              "reentrant_forward": ev_reentrant_forward, "recursion": ev_recursion, "register": ev_register, "deprecated": ev_deprecated, "ok_work": ev_ok_work, "rfft_options": ev_rfft_options, "fail_bad_cotangent": ev_fail_bad_cotangent, "warnings_as_errors": ev_warnings_as_errors, "fail_check_grads_vjp_only": ev_fail_check_grads_vjp_only}
     names = sorted(events)
     for h in range(idx, total, n):
         rng = onp.random.Generator(onp.random.PCG64([seed, h, 79]))
